@@ -401,6 +401,37 @@ func sinCos(c *smt.Ctx, a *smt.Term) (*smt.Term, *smt.Term) {
 	return s, co
 }
 
+// symAtan2 (axiom T3, restricted): for y = rho*sin(A), x = rho*cos(A) with the
+// same angle term A (the pair introduced by math.Sin/Cos), rho > 0 and
+// -pi < A <= pi, atan2(y, x) = A. The two side conditions are domain events.
+func symAtan2(c *smt.Ctx, y, x *smt.Term) *smt.Term {
+	match := func(t *smt.Term, prefix string) (*smt.Term, *smt.Term) {
+		if t.Op != "*" {
+			return nil, nil
+		}
+		for i := 0; i < 2; i++ {
+			v := t.Args[i]
+			if v.Op == "var" && strings.HasPrefix(v.Name, prefix) {
+				return t.Args[1-i], v
+			}
+		}
+		return nil, nil
+	}
+	ry, sv := match(y, "sin!")
+	rx, cv := match(x, "cos!")
+	if ry == nil || rx == nil || ry != rx || sv.Name[4:] != cv.Name[4:] {
+		panic(Unsupported{"math.Atan2 of symbolic arguments that are not (rho*sin(A), rho*cos(A))"})
+	}
+	for _, tp := range c.Trig {
+		if tp.Sin == sv {
+			pi := c.RealF(math.Pi)
+			c.OnDomain("atan2", c.And(c.Gt(rx, c.RealI(0)), c.Gt(tp.Angle, c.Neg(pi)), c.Le(tp.Angle, pi)))
+			return tp.Angle
+		}
+	}
+	panic(Unsupported{"math.Atan2: unknown sin/cos pair"})
+}
+
 func math1(name string, nat func(float64) float64, symf func(c *smt.Ctx, x *smt.Term) *smt.Term) externalFn {
 	return func(fr *frame, args []value) value {
 		if x, ok := f64(args[0]); ok {
@@ -476,7 +507,7 @@ func init() {
 			c.OnDomain("mod", c.Ne(b, c.RealI(0)))
 			return c.Sub(a, c.Mul(b, truncT(c, c.Div(a, b))))
 		}),
-		"math.Atan2": math2("Atan2", math.Atan2, nil),
+		"math.Atan2": math2("Atan2", math.Atan2, symAtan2),
 		"math.Pow": math2("Pow", math.Pow, func(c *smt.Ctx, a, b *smt.Term) *smt.Term {
 			if b.IsConst() && b.Val.IsInt() {
 				n := b.Val.Num().Int64()
